@@ -133,6 +133,8 @@ def eval_bool(t: Term, atoms: list, val: dict) -> bool:
     k = t[0]
     if k == "const":
         return bool(t[1])
+    if k == "inloop":
+        return True  # membership of the enclosing loop body: not a data condition
     if k == "not":
         return not eval_bool(t[1], atoms, val)
     if k == "and":
